@@ -1180,13 +1180,17 @@ func parseLinkLabel(r *inlineByteReader) linkLabel {
 	}
 
 	// Skip initial spaces.
+	// A line ending counts as one character, however it is spelled.
 	chars := 0
-	for {
+	for prev := byte(0); ; {
 		if !r.next() {
 			return linkLabel{NullSpan(), NullSpan()}
 		}
-		chars++
 		c := r.current()
+		if !(c == '\n' && prev == '\r') {
+			chars++
+		}
+		prev = c
 		if chars > maxChars || c == '[' || c == ']' {
 			return linkLabel{NullSpan(), NullSpan()}
 		}
@@ -1211,10 +1215,11 @@ func parseLinkLabel(r *inlineByteReader) linkLabel {
 		} else if !isSpaceTabOrLineEnding(r.current()) {
 			result.inner.End = r.pos + 1
 		}
+		prev := r.current()
 		if !r.next() {
 			return linkLabel{NullSpan(), NullSpan()}
 		}
-		if !isUTF8ContinuationByte(r.current()) {
+		if c := r.current(); !isUTF8ContinuationByte(c) && !(c == '\n' && prev == '\r') {
 			chars++
 		}
 	}
